@@ -409,7 +409,10 @@ class Schema(dict, metaclass=LogicalMeta):
             raise exc.DeleteError(
                 f"{self.__name__}: Attempt to popitem in immutable schema"
             )
-        return super().popitem()
+        for key in reversed(list(self.keys())):
+            # go through pop() so that immutable / required fields are checked
+            return key, self.pop(key)
+        raise KeyError(f"{self.__name__}: popitem(): schema is empty")
 
     def pop(self, key: str, default=unprovided):
         if self.__options__.immutable:
